@@ -61,6 +61,13 @@ CLAIMED = {
    text="For every union-free/Optional-only type of the TLC-enumerated universe, adversarial valid values (text-pool strings, 2-element first members, str-mixin enum members, named tuples with pair first fields) are passed to the real unmarshal; TLC first confirms Exact(T, v) in the spec and then requires the projected result to equal the projected input term (classes, offsets, fold included); idempotence is checked on every junk input whose first call succeeds.",
    ref="DESIGN.md section 4 C13",
    note="Trusted: TLC; term projection; values drawn from the per-leaf pools of harness/typeterms.py (boundary-biased, not exhaustive)."),
+ "C01": dict(
+   engine="Wire",
+   technique="TLA+ specs Terms.tla + Wire.tla (Exact, set-insensitive wire equality WEq); TLC-enumerated universe x pool values through the real marshal/unmarshal/marshal, TLC trace spec Wire_Trace.tla applies the strict law r = v or, for ambiguous unions, the weak fixpoint",
+   level="model_checking",
+   text="For every type of the TLC-enumerated universe and boundary-biased valid values, the real marshal -> unmarshal -> marshal chain is recorded; TLC confirms Exact(T, v), then requires the projected result term to equal the projected input (runtime class at every position, UTC offset, microseconds) unless a union inside T is ambiguous, and requires the second wire form to equal the first (modulo element order under set types) always. Scalars are visited twice in opposite orders with warm value memos.",
+   ref="DESIGN.md section 4 C01",
+   note="Trusted: TLC; term projection; union ambiguity is decided with the real member routines over the member pools (it only selects which law applies, and is broader than the statement: marshal-side take-over counts too). Values come from finite pools."),
 }
 NOT_BUILT = "check not built yet (build in progress; see DESIGN.md section 7 build order)"
 
